@@ -388,6 +388,38 @@ func c05Handwritten(r *fw.Rec) {
 		"duplicate/numbered-global":         "@0 = global i32 0\n@0 = global i32 1\n",
 		"duplicate/type-opaque-then-twice":  "%T = type opaque\n%T = type { i32 }\n%T = type { i64 }\n@g = global %T* null\n",
 		"selfref/type-alias-cycle":          "%a = type %b\n%b = type %a\n@g = global i32 0\n",
+		// a block of a function that has no body cannot be named
+		"undefined/blockaddress-in-declaration":               "@a = global i8* blockaddress(@f, %bb)\ndeclare void @f()\n",
+		"undefined/blockaddress-in-declaration-numbered":      "declare void @f()\ndefine i8* @g() {\n  ret i8* blockaddress(@f, %1)\n}\n",
+		"undefined/blockaddress-in-declaration-table":         "declare void @f()\n@t = constant [2 x i8*] [i8* blockaddress(@f, %a), i8* blockaddress(@f, %b)]\n",
+		"undefined/blockaddress-of-variable":                  "@v = global i32 0\n@a = global i8* blockaddress(@v, %bb)\n",
+		"undefined/comdat-bare-on-function":                   "define void @f() comdat {\n  ret void\n}\n",
+		"undefined/comdat-on-global":                          "@g = global i32 0, comdat($missing)\n",
+		"undefined/metadata-attachment-on-global":             "@g = global i32 0, !dbg !9\n",
+		"undefined/metadata-attachment-on-inst":               "define void @f() {\n  ret void, !dbg !9\n}\n",
+		"undefined/metadata-attachment-on-function":           "define void @f() !dbg !9 {\n  ret void\n}\n",
+		"undefined/metadata-in-call-argument":                 "declare void @llvm.dbg.value(metadata, metadata, metadata)\ndefine void @f() {\n  call void @llvm.dbg.value(metadata i32 0, metadata !9, metadata !DIExpression())\n  ret void\n}\n",
+		"undefined/metadata-in-tuple":                         "!0 = !{!1}\n!nm = !{!0}\n",
+		"undefined/global-in-constant-expression":             "@g = global i64 ptrtoint (i32* @missing to i64)\n",
+		"undefined/global-in-gep-expression":                  "@g = global i32* getelementptr (i32, i32* @missing, i64 1)\n",
+		"undefined/label-in-switch":                           "define void @f(i32 %x) {\nentry:\n  switch i32 %x, label %d [ i32 1, label %missing ]\nd:\n  ret void\n}\n",
+		"undefined/label-in-indirectbr":                       "define void @f(i8* %p) {\nentry:\n  indirectbr i8* %p, [label %missing]\n}\n",
+		"undefined/label-in-invoke-unwind":                    "declare void @g()\ndefine void @f() personality i8* null {\nentry:\n  invoke void @g() to label %ok unwind label %missing\nok:\n  ret void\n}\n",
+		"undefined/label-in-condbr":                           "define void @f(i1 %c) {\nentry:\n  br i1 %c, label %a, label %missing\na:\n  ret void\n}\n",
+		"undefined/label-in-callbr":                           "define void @f() {\nentry:\n  callbr void asm \"\", \"X\"(i8* blockaddress(@f, %a)) to label %a [label %missing]\na:\n  ret void\n}\n",
+		"undefined/type-in-alloca":                            "define void @f() {\n  %a = alloca %missing\n  ret void\n}\n",
+		"undefined/type-in-cast":                              "define void @f(i8* %p) {\n  %a = bitcast i8* %p to %missing*\n  ret void\n}\n",
+		"undefined/local-in-phi-value":                        "define i32 @f() {\nentry:\n  br label %next\nnext:\n  %p = phi i32 [ %missing, %entry ]\n  ret i32 %p\n}\n",
+		"undefined/local-in-call-argument":                    "declare void @g(i32)\ndefine void @f() {\n  call void @g(i32 %missing)\n  ret void\n}\n",
+		"undefined/local-in-bundle":                           "declare void @g()\ndefine void @f() {\n  call void @g() [ \"deopt\"(i32 %missing) ]\n  ret void\n}\n",
+		"duplicate/label-and-param":                           "define i32 @f(i32 %x) {\nx:\n  ret i32 %x\n}\n",
+		"duplicate/inst-then-label":                           "define i32 @f() {\nentry:\n  %next = add i32 1, 2\n  br label %next\nnext:\n  ret i32 0\n}\n",
+		"duplicate/invoke-result-and-label":                   "declare i32 @g()\ndefine i32 @f() personality i8* null {\nentry:\n  %ok = invoke i32 @g() to label %ok unwind label %lp\nok:\n  ret i32 0\nlp:\n  %l = landingpad i32 cleanup\n  ret i32 1\n}\n",
+		"duplicate/label-twice":                               "define void @f() {\na:\n  br label %a\na:\n  ret void\n}\n",
+		"duplicate/function-declared-and-defined-differently": "declare i32 @f()\ndefine void @f() {\n  ret void\n}\n",
+		"duplicate/comdat":                                    "$c = comdat any\n$c = comdat largest\n@g = global i32 0, comdat($c)\n",
+		"duplicate/metadata-id":                               "!0 = !{}\n!0 = !{!\"x\"}\n!nm = !{!0}\n",
+		"duplicate/ifunc-and-function":                        "@r = global i32 0\ndefine void ()* @res() {\n  ret void ()* null\n}\n@f = ifunc void (), void ()* ()* @res\ndefine void @f() {\n  ret void\n}\n",
 	}
 	for _, kind := range fw.SortedKeys(cases) {
 		c05Judge(r, "handwritten", c05Fault{kind: kind, text: cases[kind], site: "handwritten"})
